@@ -13,6 +13,7 @@ import CxxModel.Theorems.AliasPre
 import CxxModel.Theorems.BitsDecl
 import CxxModel.Theorems.InitPre
 import CxxModel.Theorems.VarDeclsPre
+import CxxModel.Theorems.FnBody
 import CxxModel.Theorems.MemberKinds
 namespace Cxx
 open P
@@ -491,6 +492,37 @@ def Item.variablesPre (spec : List Tok) (segs : List PQSeg) (cst vol : Bool) (ds
         hhead hds hlast hsep hy h10 h11
     exact ⟨wF, evs, ⟨⟨[wF], .one hi, rfl⟩, hsig, ⟨blkF, hstF, by rw [hl]; exact Block.sameButLoc_setLoc blk l⟩, hev, hmuF⟩,
       doxs, hdl, hkinds, hall⟩
+
+/-- a function DEFINITION `S ptr-ops f(P₁, …, Pₙ) { body }` at namespace scope: any return-type specifier, parameters over any
+    type specifier and declarator prefix, ANY bracket-balanced body (skipped exactly; no `;` follows) -/
+def Item.functionDef (spec : List Tok) (segs : List PQSeg) (cst vol : Bool) (ops : List Tok) (x op : Tok) (ps : List (PItemG × Tok))
+    (last : PItemG) (cp ob : Tok) (content : List Tok) (cb : Tok) (d1 : DType) : Item env (F + 1) (core (F + 1) (D + 1 + 1 + 1 + 1)) :=
+  Item.ofToks env (F + 1) (spec ++ (ops ++ (x :: op :: (plistToks ps last cp ++ (ob :: (content ++ [cb]))))))
+    ((TypeSpecR env (F + 1) (D + 1 + 1) spec segs cst vol ∧ (∃ f r, spec = f :: r ∧ specFirst f.type = true) ∧
+      opsHeadOk ops = true ∧ (∀ o ∈ ops, o.value ≠ "auto") ∧
+      applyPtrOps (.type (.mk segs none false) cst vol) (ops.map (·.type)) = some d1 ∧
+      x.type = "NAME" ∧ identVal x.value = true ∧ ops.length + 2 ≤ F + 1) ∧ op.type = "(" ∧
+      (∀ q ∈ ps, q.1.OK env (F + 1) D ∧ q.2.type = "," ∧ q.2.value ≠ ")") ∧
+      last.OK env (F + 1) D ∧ cp.type = ")" ∧ cp.value = ")" ∧ ps.length + 1 ≤ F + 1 ∧
+      ob.type = "{" ∧ Balanced "{" "}" content ∧ cb.type = "}" ∧ content.length + 1 ≤ F)
+    (fun blk rest ev => ∃ d, ItemEvent blk rest ev (.function { plainFunction x d1 d with
+        parameters := ps.map (fun q => q.1.param) ++ [last.param], hasBody := true }))
+    (by
+      intro w b' blk rest hst hk hmu ⟨⟨hspec, ⟨f, r, hfr, hfirst⟩, h4, h5, h6, h7, h8, h9⟩, ho, hps, hl, hc, hcv, hFp, hob, hbal, hcb, hFb⟩ hy
+      rw [hfr] at hy
+      obtain ⟨b1, t0, hy⟩ := Yields.cons_inv hy
+      obtain ⟨b0, hy0, hy⟩ := hy.split
+      obtain ⟨bmid, hy1, hy⟩ := hy.split
+      obtain ⟨bx, t1, hy⟩ := hy.cons_inv
+      obtain ⟨bo, t2, hy⟩ := hy.cons_inv
+      obtain ⟨bc, hyp, hy⟩ := hy.split
+      obtain ⟨bb, t3, hy⟩ := hy.cons_inv
+      obtain ⟨d, bD, w7, ct, ev, _, hi7, hb, _, hst7, hev7, hk7, hid7, hpar7, _, _, hmu7, _⟩ :=
+        toplevel_function_body_gen env hp F D w spec f r segs cst vol ops x op (ps.map (fun q => q.1.param) ++ [last.param]) ob content cb d1
+          b1 b0 bmid bx bo bc bb b' blk rest hst hk hmu (by rw [hnf]; simp) hspec hfr hfirst t0 hy0 h4 h5 hy1 h6 t1 h7 h8 t2 ho
+          (fun W hW => parseParameters_gen env (F + 1) D ps last cp W bc hps hl hc hcv (by rw [hW]; exact hyp) hFp)
+          t3 hob hbal hcb hy h9 hFb
+      exact ⟨w7, _, ev, hi7, by rw [hb]; exact .refl _, hst7, hev7, ⟨d, hk7, hid7, hpar7⟩, hmu7⟩)
 
 end kinds
 
